@@ -7,7 +7,7 @@
 (* prediction (KernelImpl, the transcription of the pinned algorithm) and  *)
 (* its decision site is printed for the verdict (DESIGN.md section 4).     *)
 (***************************************************************************)
-EXTENDS KernelImpl, TraceBase
+EXTENDS KernelImpl, BigKernel, TraceBase
 RayCode(r) == IF r = "on" THEN 2 ELSE IF r = "in" THEN 1 ELSE 0
 Exp(e) ==
    CASE e.op = "ray" -> RayCode(RaycastSem(e.a, e.b, e.p))
@@ -16,6 +16,14 @@ Exp(e) ==
      [] e.op = "int" -> SegInter(e.a, e.b, e.c, e.d)
      [] e.op = "con" -> SegContains(e.a, e.b, e.c, e.d)
      [] e.op = "rect" -> SegRect(e.a, e.b)
+\* events marked big carry coordinates up to 2^20: judged with the limb-arithmetic kernels
+ExpBig(e) ==
+   CASE e.op = "ray" -> RayCode(RaycastSemB(e.a, e.b, e.p))
+     [] e.op = "cpt" -> OnSegB(e.p, e.a, e.b)
+     [] e.op = "col" -> CollinearB(e.a, e.b, e.p)
+     [] e.op = "int" -> SegInterB(e.a, e.b, e.c, e.d)
+     [] e.op = "con" -> SegContainsB(e.a, e.b, e.c, e.d)
+IsBig(e) == "big" \in DOMAIN e
 Pred(e) ==
    CASE e.op = "ray" -> <<RayCode(RaycastL2(e.a, e.b, e.p)), "raycast.go">>
      [] e.op = "cpt" -> <<ContainsPointL2(e.a, e.b, e.p), "segment.go:46">>
@@ -26,6 +34,7 @@ Pred(e) ==
 Bad(e) == "bad" \in DOMAIN e     \* replay-side mismatch on a non-lattice value (e.g. a rectangle)
 Judge == pos > 0 =>
    LET e == Trace[pos] IN
-   IF ~Bad(e) /\ e.got = Exp(e) THEN TRUE
+   IF IsBig(e) THEN (e.got = ExpBig(e) \/ PrintT(ToString(<<"MISMATCH", pos, ExpBig(e), "n/a", "large coordinates">>)))
+   ELSE IF ~Bad(e) /\ e.got = Exp(e) THEN TRUE
    ELSE PrintT(ToString(<<"MISMATCH", pos, Exp(e), Pred(e)[1], Pred(e)[2]>>))
 =============================================================================
